@@ -125,6 +125,15 @@ pub struct Shared {
     pub stall_next_write: bool,
     /// scripted scenarios: the next flush stalls (returns Pending once)
     pub stall_next_flush: bool,
+    /// write calls made by the current operation
+    pub op_writes: u32,
+    /// the previous write call of the current operation was answered with a partial accept
+    pub last_write_partial: bool,
+    /// (index of the write call that was answered Pending, previous write was partial)
+    pub pend_write_info: Option<(u32, bool)>,
+    /// twin script: answer this write call of the current operation with Pending and drop the operation there
+    pub pend_at_write: Option<u32>,
+    pub force_cancel: bool,
     pub keep_tx: bool,
     /// the most recent cancellation was forced (nothing else could happen), not a chosen deviation
     pub last_cancel_forced: bool,
@@ -193,6 +202,15 @@ impl Shared {
             return Poll::Ready(Err(ErrorKind::BrokenPipe));
         }
         self.oracle.write_offered(c, buf);
+        let write_idx = self.op_writes;
+        self.op_writes += 1;
+        if self.pend_at_write == Some(write_idx) {
+            self.pend_at_write = None;
+            self.force_cancel = true;
+            self.log(|| format!("  io c{} write pending (as scripted)", c));
+            self.pending = Pend::Chosen;
+            return Poll::Pending;
+        }
         if self.stall_next_write {
             self.stall_next_write = false;
             self.log(|| format!("  io c{} write stalls", c));
@@ -231,6 +249,8 @@ impl Shared {
         } else {
             0
         };
+        let prev_partial = self.last_write_partial;
+        self.last_write_partial = matches!(opts[i], A::Part(_));
         match opts[i] {
             A::All | A::Part(_) => {
                 let n = match opts[i] {
@@ -264,6 +284,7 @@ impl Shared {
             }
             A::Pending => {
                 self.log(|| format!("  io c{} write pending", c));
+                self.pend_write_info = Some((write_idx, prev_partial));
                 self.pending = Pend::Chosen;
                 Poll::Pending
             }
@@ -613,6 +634,12 @@ impl Shared {
         self.env_steps += 1;
         self.tick("env");
         match self.pending {
+            Pend::Chosen if self.force_cancel => {
+                self.force_cancel = false;
+                self.log(|| "  env: application drops the future (as scripted)".to_string());
+                self.last_cancel_forced = false;
+                false
+            }
             Pend::Chosen => {
                 // the deviation was already paid for by the Pending answer itself
                 let cancel = self.explore() && self.cfg.cancel && self.cancel_ok;
@@ -934,7 +961,7 @@ pub enum PStep {
     Connect,
     EndSession,
     EndConn,
-    Op { op: OpK, args: Vec<usize>, skip: bool },
+    Op { op: OpK, args: Vec<usize>, skip: bool, pend_at: Option<u32> },
 }
 
 pub struct World<'v> {
@@ -968,6 +995,10 @@ pub struct World<'v> {
     pub prelude: Option<(usize, usize)>,
     /// twin runs: the scripted program did not fit this run (connect() results differ)
     pub twin_out_of_step: Option<String>,
+    /// twin script: where the current operation is to be dropped
+    pub cur_pend_at: Option<u32>,
+    /// operations dropped at a pending write: (index into `program`, write call index, previous write partial)
+    pub drops: Vec<(usize, u32, bool)>,
 }
 
 #[derive(Copy, Clone, PartialEq, Eq, Debug)]
@@ -999,6 +1030,7 @@ pub struct RunResult {
     pub final_state: Option<(bool, usize, usize, usize, usize, u16)>,
     pub cover: u64,
     pub twin_out_of_step: Option<String>,
+    pub drops: Vec<(usize, u32, bool)>,
 }
 
 struct ConnCtx {
@@ -1066,8 +1098,9 @@ impl<'v> World<'v> {
     fn decide_op(&mut self, menu: &[OpK]) -> Option<(OpK, bool)> {
         let r = if let Some(sc) = &mut self.script {
             match sc.pop_front() {
-                Some(PStep::Op { op, args, skip }) => {
+                Some(PStep::Op { op, args, skip, pend_at }) => {
                     self.cur_args = args.into();
+                    self.cur_pend_at = pend_at;
                     Some((op, skip))
                 }
                 Some(PStep::EndConn) | None => None,
@@ -1085,7 +1118,7 @@ impl<'v> World<'v> {
             if pick == 0 { None } else { Some((menu[pick - 1], false)) }
         };
         self.program.push(match r {
-            Some((op, skip)) => PStep::Op { op, args: Vec::new(), skip },
+            Some((op, skip)) => PStep::Op { op, args: Vec::new(), skip, pend_at: None },
             None => PStep::EndConn,
         });
         r
@@ -1561,7 +1594,15 @@ impl<'v> World<'v> {
 
     fn do_op(&mut self, conn: &mut Connection<'_, '_, VirtualIo>, id: usize, op: OpK) {
         let before = self.io_counters(id);
-        self.sh.borrow_mut().op_calls = 0;
+        {
+            let mut sh = self.sh.borrow_mut();
+            sh.op_calls = 0;
+            sh.op_writes = 0;
+            sh.last_write_partial = false;
+            sh.pend_write_info = None;
+            sh.pend_at_write = self.cur_pend_at.take();
+            sh.force_cancel = false;
+        }
         let progress0 = self.sh.borrow().progress;
         let res = match op {
             OpK::Pub0 | OpK::Pub1 | OpK::Pub2 => {
@@ -1901,7 +1942,11 @@ impl<'v> World<'v> {
         if res == Res::Cancelled && !self.sh.borrow().last_cancel_forced {
             let seq = self.sh.borrow().oracle.cur_op.and_then(|c| c.1);
             self.cancelled.push((self.program.len() - 1, op, seq));
+            if let Some((w, prev_partial)) = self.sh.borrow_mut().pend_write_info.take() {
+                self.drops.push((self.program.len() - 1, w, prev_partial));
+            }
         }
+        self.sh.borrow_mut().pend_at_write = None;
         self.sh.borrow_mut().oracle.op_end(res.rejected(), res == Res::Cancelled);
         self.note_outcome((op, res));
         if op != OpK::Sleep && op != OpK::Age {
@@ -2222,6 +2267,9 @@ fn compare_with_twin(cfg: &Rc<Cfg>, r: &mut RunResult, record: bool) {
     let relevant = match mode {
         Twin::Cancel => !r.cancelled.is_empty(),
         Twin::Fragment => r.spent > 0 || cfg.io.max_write > 0,
+        // exactly the executions in which every dropped operation was dropped at a pending write that
+        // directly follows a partial write made by the same call
+        Twin::DropAtWrite => !r.cancelled.is_empty() && r.drops.len() == r.cancelled.len() && r.drops.iter().all(|d| d.2 && d.1 >= 1),
     };
     if !relevant {
         return;
@@ -2231,6 +2279,14 @@ fn compare_with_twin(cfg: &Rc<Cfg>, r: &mut RunResult, record: bool) {
         if *clean {
             if let PStep::Op { skip, .. } = &mut script[*idx] {
                 *skip = true;
+            }
+        }
+    }
+    if mode == Twin::DropAtWrite {
+        for (idx, w, _) in &r.drops {
+            if let PStep::Op { pend_at, skip, .. } = &mut script[*idx] {
+                *pend_at = Some(*w - 1);
+                *skip = false;
             }
         }
     }
@@ -2262,6 +2318,7 @@ fn compare_with_twin(cfg: &Rc<Cfg>, r: &mut RunResult, record: bool) {
         let (prop, what) = match mode {
             Twin::Cancel => ("C13", "the uncancelled run"),
             Twin::Fragment => ("C15", "the unfragmented run"),
+            Twin::DropAtWrite => ("C15", "the run without the partial write"),
         };
         flag(prop, "results-differ", "connect", format!("connect() does not give the same result in {}: {}", what, why));
         return;
@@ -2295,6 +2352,20 @@ fn compare_with_twin(cfg: &Rc<Cfg>, r: &mut RunResult, record: bool) {
             }
             if r.obs.delivered != t.obs.delivered {
                 flag("C13", "deliveries-differ", &ctx, format!("after cancelling {:?}: delivered {:?}, uncancelled run {:?}", ops, r.obs.delivered, t.obs.delivered));
+            }
+        }
+        Twin::DropAtWrite => {
+            let ctx = "dropped-at-a-pending-write-after-a-partial-one";
+            if r.obs.delivered != t.obs.delivered {
+                flag("C15", "deliveries-differ", ctx, format!("delivered {:?}; with the write pending straight away {:?}", r.obs.delivered, t.obs.delivered));
+            }
+            if r.results != t.results {
+                flag("C15", "results-differ", ctx, format!("operation results {:?}; with the write pending straight away {:?}", r.results, t.results));
+            }
+            if r.tx != t.tx {
+                let a: Vec<String> = r.tx.iter().map(|b| mr::hex_short(b)).collect();
+                let b: Vec<String> = t.tx.iter().map(|b| mr::hex_short(b)).collect();
+                flag("C15", "outbound-stream-differs", ctx, format!("bytes accepted per connection {:?}; with the write pending straight away instead of after a partial accept {:?}", a, b));
             }
         }
         Twin::Fragment => {
@@ -2342,6 +2413,11 @@ pub fn run_inner(
         manual: false,
         stall_next_write: false,
         stall_next_flush: false,
+        op_writes: 0,
+        last_write_partial: false,
+        pend_write_info: None,
+        pend_at_write: None,
+        force_cancel: false,
         keep_tx: cfg.twin.is_some() || script.is_some(),
         last_cancel_forced: false,
         held: Vec::new(),
@@ -2372,6 +2448,8 @@ pub fn run_inner(
         need_reconnect_drain: false,
         prelude: None,
         twin_out_of_step: None,
+        cur_pend_at: None,
+        drops: Vec::new(),
     };
     let result = std::panic::catch_unwind(std::panic::AssertUnwindSafe(|| {
         let mut rx = vec![0u8; cfg.rx];
@@ -2443,6 +2521,7 @@ pub fn run_inner(
                     final_state: None,
                     cover: 0,
                     twin_out_of_step: None,
+                    drops: Vec::new(),
                 };
             }
         };
@@ -2505,6 +2584,7 @@ pub fn run_inner(
         final_state: world.final_state,
         cover: shb.oracle.cover,
         twin_out_of_step: world.twin_out_of_step.clone(),
+        drops: std::mem::take(&mut world.drops),
         points: std::mem::take(&mut shb.ch.points),
         violations: std::mem::take(&mut shb.oracle.viol),
         trace: shb.trace.take(),
